@@ -391,9 +391,11 @@ def r23_9(ctx, rep):
     R = "R23.9"
     fn = ctx.func(GEN, "Generator.get_indexed_symbol", R)
     site = GEN + ":Generator.get_indexed_symbol"
-    handed = {c.args[1].id for c in calls(fn) if isinstance(c.func, ast.Attribute) and c.func.attr == "register_indexed_symbol" and len(c.args) >= 2 and isinstance(c.args[1], ast.Name)}
-    defs = [d for d in ast.walk(fn) if isinstance(d, ast.FunctionDef) and d is not fn and d.name in handed]
-    lambdas = [c.args[1] for c in calls(fn) if isinstance(c.func, ast.Attribute) and c.func.attr == "register_indexed_symbol" and len(c.args) >= 2 and isinstance(c.args[1], ast.Lambda)]
+    # the function itself and any part of it that was split off into a helper the reference tree does not have
+    hosts = [fn] + ctx.new_callees(GEN, fn)
+    handed = {c.args[1].id for h in hosts for c in calls(h) if isinstance(c.func, ast.Attribute) and c.func.attr == "register_indexed_symbol" and len(c.args) >= 2 and isinstance(c.args[1], ast.Name)}
+    defs = [d for h in hosts for d in ast.walk(h) if isinstance(d, ast.FunctionDef) and d is not h and d.name in handed]
+    lambdas = [c.args[1] for h in hosts for c in calls(h) if isinstance(c.func, ast.Attribute) and c.func.attr == "register_indexed_symbol" and len(c.args) >= 2 and isinstance(c.args[1], ast.Lambda)]
     if len(defs) + len(lambdas) < 2:
         raise MechanismMissing(R, "fewer than 2 index functions handed to register_indexed_symbol found")
     for d in defs + lambdas:
@@ -612,10 +614,11 @@ def _m_dead_branch(mod):
     def edit(fn):
         for lp in ast.walk(fn):
             if isinstance(lp, ast.For):
-                for i, st in enumerate(lp.body):
-                    if isinstance(st, ast.Assign) and "tree.conditions" in norm(st.value):
-                        lp.body.insert(i + 1, ast.parse("if %s is False:\n    continue" % norm(st.targets[0])).body[0])
-                        return True
+                conds = [c for st in lp.body for c in ast.walk(st) if isinstance(c, ast.Call) and isinstance(c.func, ast.Attribute) and c.func.attr == "get_mx"
+                         and "tree.conditions" in norm(c)]
+                if conds:
+                    lp.body.insert(0, ast.parse("if %s is False:\n    continue" % norm(conds[0])).body[0])
+                    return True
         return False
 
     return mod if replace_in_func(mod, "Generator.exitIfExpression", edit) else None
